@@ -80,3 +80,5 @@ func init() { engines["RC"] = engineRC }
 func init() { engines["ORD"] = engineORD }
 
 func init() { engines["TB"] = engineTB }
+
+func init() { engines["NL"] = engineNL }
